@@ -88,6 +88,15 @@ def judge_direct(got, want, order, label):
 def eval_direct(case, rng, thorough):
     logging.disable(logging.CRITICAL)
     ep = tcpcap.default_ep(0, case.get("v6", False))
+    # probe: the simplest delivery (one record per direction, one segment each) through the direct harness; if that does not come back right the
+    # harness's entry points moved (refactoring) - the direct level is then unavailable (inconclusive) and the end-to-end level decides alone
+    try:
+        pr = {"c": tiny_records(random.Random(1), [2]), "s": tiny_records(random.Random(2), [1])}
+        got, _ = direct_run(mk_segs(b"".join(pr["c"]), [], "c", 100, 501) + mk_segs(b"".join(pr["s"]), [], "s", 500, 101 + len(pr["c"][0])), ep)
+        assert got == pr
+    except Exception as e:
+        return {"v": "inconclusive", "nontrivial": False, "cls": ["direct-unavailable"], "units": 0, "tags": ["direct-unavailable"],
+                "msg": f"direct reassembly harness unavailable (entry points changed?): {e!r}"}
     units, bad, known, classes = 0, [], 0, set()
     kind = case["kind"]
 
